@@ -189,6 +189,15 @@ func buildCorpus(env *Env, cfg *spec.DiskCfg) []corpusItem {
 		add("jpegls8-"+tag, "jpeg", "80", in8, enc("", spec.Op{Target: "jpegls", Info: in8, Frames: fr}), false)
 		add("jpegls16-"+tag, "jpeg", "80", in16, enc("", spec.Op{Target: "jpegls", Info: in16, Frames: fr}), false)
 		add("jpeglsnear3-"+tag, "jpeg", "81", in8, enc("", spec.Op{Target: "jpeglsnear", Info: in8, Frames: fr, Near: 3}), false)
+		// flat content: long runs / run mode / single-symbol entropy tables, tiny scans
+		flat := []spec.Frame{{Gen: "zero"}}
+		sparse := []spec.Frame{{Gen: "sparse", Seed: uint64(gi + 7)}}
+		add("jpegls8-flat-"+tag, "jpeg", "80", in8, enc("", spec.Op{Target: "jpegls", Info: in8, Frames: flat}), false)
+		add("jpegls8-sparse-"+tag, "jpeg", "80", in8, enc("", spec.Op{Target: "jpegls", Info: in8, Frames: sparse}), false)
+		add("jpeglsnear3-flat-"+tag, "jpeg", "81", in8, enc("", spec.Op{Target: "jpeglsnear", Info: in8, Frames: flat, Near: 3}), false)
+		add("lossless8p1-flat-"+tag, "jpeg", "57", in8, enc("", spec.Op{Target: "lossless", Info: in8, Frames: flat, Pred: 1}), false)
+		add("sv1-12-sparse-"+tag, "jpeg", "70", in12, enc("", spec.Op{Target: "sv1", Info: in12, Frames: sparse}), false)
+		add("baseline-flat-"+tag, "jpeg", "50", in8, enc("", spec.Op{Target: "baseline", Info: in8, Frames: flat, Q: 75}), false)
 		if cfg.Corpus == "full" {
 			add("sv1-8-"+tag, "jpeg", "70", in8, enc("", spec.Op{Target: "sv1", Info: in8, Frames: fr}), false)
 			add("lossless12p7-"+tag, "jpeg", "57", in12, enc("", spec.Op{Target: "lossless", Info: in12, Frames: fr, Pred: 7}), false)
@@ -505,6 +514,8 @@ func allVals() []int {
 	}
 	return v
 }
+
+var allValsCached = allVals()
 
 var fewVals = []int{0x00, 0x01, 0x02, 0x03, 0x04, 0x07, 0x08, 0x0F, 0x10, 0x11, 0x1F, 0x20, 0x3F, 0x40, 0x7F, 0x80, 0xC0, 0xFE, 0xFF}
 
@@ -848,6 +859,9 @@ func diskMain(inPath, outPath string) {
 					bv := []int{int(d[o]) ^ 0x01, int(d[o]) ^ 0x80, 0x00, 0xFF}
 					if !it.ht {
 						bv = append(bv, int(d[o])^0x10, 0x7F)
+						if len(d)-it.hdrEnd <= 96 {
+							bv = allValsCached // a short entropy-coded body gets every value at every byte
+						}
 					}
 					for _, v := range bv {
 						if byte(v) == d[o] {
